@@ -194,7 +194,7 @@ fn getter_view(kind: &Kind, bi: &BootInformation, rbase: *const u8, fbvar: u8) -
 
 fn run(ctx: &mut Ctx) {
     let arena = Arena::new(2);
-    let extra = if ctx.quick() { 17 } else { 41 };
+    let extra = if ctx.quick() { 17 } else { 137 };
     ctx.bound("sizes", format!("per DST kind: declared size 0..=FIXED+4*ELEM+{} + EDGE32; framebuffer additionally stored palette count 0..=5 and a text-mode variant; tag-level seam (ref_from_slice + cast on a slice flush against a guard page, fills A/B) and region-level seam ([filler][tag][filler][end] through load + typed getter) with three different marker patterns in padding and neighbours", extra));
     for kind in KINDS.iter() {
         let top = kind.fixed + 4 * kind.elem + extra;
